@@ -28,7 +28,8 @@ def const_exprs(rng, n):
     return out
 
 
-NONCONST = ["x", "it", "x at 1", "F taking 1", "roll x", "0 times x", "0 times it", "0 times x at 1", "0 times F taking 1", "0 times roll x", "0 times 5, x",
+NONCONST = ["my heart", "Tom Sawyer", "the world at 1", "Tom Sawyer taking 1", "0 times my heart", "1 plus Tom Sawyer", "-my heart", "roll my heart",
+            "x", "it", "x at 1", "F taking 1", "roll x", "0 times x", "0 times it", "0 times x at 1", "0 times F taking 1", "0 times roll x", "0 times 5, x",
             "2 minus 2 times x", "x times 0", "1 plus x", "not 1", "1 is 1", "1 and 2", "\"a\"", "\"a\" plus \"b\"", "mysterious", "null", "true", "1 plus \"a\"",
             "1 plus true", "-x", "1 minus 2, x", "0 times -1", "0 over -4", "1 over 0", "0 over 0", "-0", "1 is greater than 0", "empty"]
 
@@ -44,6 +45,11 @@ def run(chk):
     for i, e in enumerate(exprs):
         lines.append(f"(ana f{i} fold {C.hx('say ' + e)})")
         cases.append({"src": prelude + f"say {e}\n", "meta": {"expr": e}})
+    # poetic number literals (assignment and array push): the folders' own callbacks for them
+    poetic = ["a lovestruck ladykiller", "ice. cold", "a. b c", "nothing's wrong", "rock'n'roll", "sweet, sweet dreams.", "x", "antidisestablishmentarianism lovestruck",
+              "we're here . now", "mother-in-law's dreams", "a" + " big" * 20, ". a", "a b c d e f g h i j k l m n o p q r s t u v w x y z"]
+    for k, pl in enumerate(poetic):
+        lines.append(f"(ana p{k} fold {C.hx('Tommy is ' + pl + chr(10) + 'rock the list like ' + pl + chr(10))})")
     res, _ = suite.compare(chk, lines, "fold", project=lambda x: x, suite_name="FOLD")
     recs = execsuite.run(chk, cases, "exec", suite_name="EXEC-folded")
     # fold value -> text through the implementation's own float printing
